@@ -56,7 +56,7 @@ func VerifH_C05_handle_request() {
 	method := verif.StringN([2]int{3, 4}[verif.Choose(2)])
 	transport := verif.StringN([3]int{7, 9, 3}[verif.Choose(3)])
 	eio := verif.String(1)
-	sidKind := verif.Choose(3) // absent, unknown, the polling session
+	sidKind := verif.Choose(4) // absent, unknown, the polling session, present but empty (= no session named)
 	ctx, w := newCtx(method, "/engine.io/")
 	ctx.Query().Set("transport", transport)
 	if len(eio) > 0 {
@@ -67,7 +67,10 @@ func VerifH_C05_handle_request() {
 		ctx.Query().Set("sid", "nosuch")
 	case 2:
 		ctx.Query().Set("sid", "sidP")
+	case 3:
+		ctx.Query().Set("sid", "")
 	}
+	noSid := sidKind == 0 || sidKind == 3
 	// transports answer the requests they are given
 	answer := func(c *types.HttpContext) { respond(nil, c) }
 	tp.onRequest = answer
@@ -78,8 +81,8 @@ func VerifH_C05_handle_request() {
 	isP, isW := transport == transports.POLLING, transport == transports.WEBSOCKET
 	want := 3
 	if mw != 2 {
-		want = refAdmit(isP || isW, false, sidKind != 0, sidKind == 2, isP, false, strings.ToUpper(method) == "GET", isW, hook == 2)
-		if want < 0 && sidKind == 0 && eio != "4" && !allow3 {
+		want = refAdmit(isP || isW, false, !noSid, sidKind == 2, isP, false, strings.ToUpper(method) == "GET", isW, hook == 2)
+		if want < 0 && noSid && eio != "4" && !allow3 {
 			want = 5
 		}
 	}
@@ -104,7 +107,7 @@ func VerifH_C05_handle_request() {
 		verif.Assert(len(tp.requests) == base, "existing session not handed the rejected request")
 	} else {
 		verif.Assert(rec.count("connection_error") == 0, "no connection_error for an admitted request")
-		if sidKind == 0 {
+		if noSid {
 			verif.Assert(rec.count("connection") == 1, "one connection event")
 			verif.Assert(ps.Clients().Len() == 2 && ps.ClientsCount() == 1, "one new session")
 			if len(ps.made) == 1 {
